@@ -94,3 +94,34 @@ Section Key.
   Qed.
 End Key.
 Print Assumptions c14_key_fields_only.
+
+(* ---- the field list, renames and renderers shape the textual output (Model/Format.v, compared byte for byte
+   with the JSON and text drivers under generated mapping files on every run) ---- *)
+From GF Require Import Model.Json Model.Render Model.Format Proofs.FormatGP.
+
+(* whatever is written for a configured field is written under its configured name (the rename if there is one,
+   else the name in the field list) *)
+Theorem c14_written_under_configured_name : forall c m s k v,
+  format_field c m s = Some (Some (k, v)) -> k = bytes_of_string (final_name c s).
+Proof. intros c m s k v H. exact (proj1 (format_field_ok c m s k v H)). Qed.
+Print Assumptions c14_written_under_configured_name.
+
+(* the members come out in the order of the field list, one per written field *)
+Theorem c14_field_list_shapes_output : forall c m ms,
+  format_members c m (cFields c) = Some ms ->
+  map fst ms = map (fun s => bytes_of_string (final_name c s)) (filter (written c m) (cFields c)).
+Proof. exact format_json_keys. Qed.
+Print Assumptions c14_field_list_shapes_output.
+
+(* a declared custom field shows up in the text forms exactly in the flows that carry it *)
+Theorem c14_custom_text_iff_carried : forall c m s,
+  is_custom (cCustoms c) s = true -> struct_by_go s = None ->
+  (unk_value (cCustoms c) (unk m) s None = Some None -> format_field c m s = Some None) /\
+  (forall v, unk_value (cCustoms c) (unk m) s None = Some (Some v) -> format_field c m s <> Some None).
+Proof.
+  intros c m s Hc Hg. split.
+  - apply custom_absent_not_written; assumption.
+  - intros v Hv. apply (custom_present_written c m s v); [|exact Hv].
+    unfold remap. rewrite Hc. exact Hg.
+Qed.
+Print Assumptions c14_custom_text_iff_carried.
